@@ -10,6 +10,7 @@ import (
 	"sort"
 	"strings"
 	"sync"
+	"time"
 
 	"github.com/0xReLogic/Helios/internal/config"
 	"github.com/0xReLogic/Helios/internal/loadbalancer"
@@ -75,11 +76,13 @@ type FakeNet struct {
 	order    []string             // hosts in arrival order (proxied only)
 	parked   map[string][]chan Behaviour
 	probeFn  func(host string) Behaviour
+	probeB   map[string]Behaviour // explicit probe behaviour by host (overrides behave for probes)
+	probeLog []ProbeRec
 }
 
 func NewFakeNet() *FakeNet {
 	return &FakeNet{behave: map[string]Behaviour{}, hits: map[string]int{}, probes: map[string]int{},
-		parked: map[string][]chan Behaviour{}}
+		parked: map[string][]chan Behaviour{}, probeB: map[string]Behaviour{}}
 }
 
 func (f *FakeNet) Set(host string, b Behaviour) { f.mu.Lock(); f.behave[host] = b; f.mu.Unlock() }
@@ -161,8 +164,39 @@ func (f *FakeNet) ReleaseAll() {
 	}
 }
 
+// ProbeRec is one completed active probe as the fake network saw it.
+type ProbeRec struct {
+	Host       string
+	Start, End time.Time
+	OK         bool // answered 200
+}
+
+// SetProbeBehaviour fixes how probes to host are answered (Good, Status5xx, Unreachable, Park).
+func (f *FakeNet) SetProbeBehaviour(host string, b Behaviour) {
+	f.mu.Lock()
+	f.probeB[host] = b
+	f.mu.Unlock()
+}
+
+// ProbeLog returns the completed probes in completion order.
+func (f *FakeNet) ProbeLog() []ProbeRec {
+	f.mu.Lock()
+	defer f.mu.Unlock()
+	return append([]ProbeRec(nil), f.probeLog...)
+}
+
+// ParkedProbes returns how many probes are parked for host.
+func (f *FakeNet) ParkedProbes(host string) int { return f.ParkedAt("probe:" + host) }
+
+// ReleaseProbe lets the oldest probe parked for host finish with the given behaviour.
+func (f *FakeNet) ReleaseProbe(host string, as Behaviour) bool { return f.Release("probe:"+host, as) }
+
 // SetProbe installs the behaviour of active probes (default: same as the host's behaviour).
-func (f *FakeNet) SetProbe(fn func(host string) Behaviour) { f.mu.Lock(); f.probeFn = fn; f.mu.Unlock() }
+func (f *FakeNet) SetProbe(fn func(host string) Behaviour) {
+	f.mu.Lock()
+	f.probeFn = fn
+	f.mu.Unlock()
+}
 
 type errBody struct{ sent bool }
 
@@ -177,11 +211,15 @@ func (e *errBody) Read(p []byte) (int, error) {
 func (e *errBody) Close() error { return nil }
 
 // RoundTrip serves proxied requests (installed as every backend's ReverseProxy.Transport).
-func (f *FakeNet) RoundTrip(req *http.Request) (*http.Response, error) { return f.roundTrip(req, false) }
+func (f *FakeNet) RoundTrip(req *http.Request) (*http.Response, error) {
+	return f.roundTrip(req, false)
+}
 
 type probeRT struct{ f *FakeNet }
 
-func (p probeRT) RoundTrip(req *http.Request) (*http.Response, error) { return p.f.roundTrip(req, true) }
+func (p probeRT) RoundTrip(req *http.Request) (*http.Response, error) {
+	return p.f.roundTrip(req, true)
+}
 
 // ProbeTransport is what http.DefaultTransport is replaced with: Helios's active prober uses an
 // inline http.Client, i.e. the default transport.
@@ -199,8 +237,14 @@ func (f *FakeNet) roundTrip(req *http.Request, isProbe bool) (*http.Response, er
 	host := req.URL.Host
 	f.mu.Lock()
 	b := f.behave[host]
+	start := time.Now()
+	pkey := host
 	if isProbe {
+		pkey = "probe:" + host
 		f.probes[host]++
+		if pb, ok := f.probeB[host]; ok {
+			b = pb
+		}
 		if f.probeFn != nil {
 			fn := f.probeFn
 			f.mu.Unlock()
@@ -214,7 +258,7 @@ func (f *FakeNet) roundTrip(req *http.Request, isProbe bool) (*http.Response, er
 	var ch chan Behaviour
 	if b == Park {
 		ch = make(chan Behaviour, 1)
-		f.parked[host] = append(f.parked[host], ch)
+		f.parked[pkey] = append(f.parked[pkey], ch)
 	}
 	f.mu.Unlock()
 	if req.Body != nil {
@@ -226,12 +270,15 @@ func (f *FakeNet) roundTrip(req *http.Request, isProbe bool) (*http.Response, er
 		case b = <-ch:
 		case <-req.Context().Done():
 			f.mu.Lock()
-			q := f.parked[host]
+			q := f.parked[pkey]
 			for i := range q {
 				if q[i] == ch {
-					f.parked[host] = append(q[:i:i], q[i+1:]...)
+					f.parked[pkey] = append(q[:i:i], q[i+1:]...)
 					break
 				}
+			}
+			if isProbe {
+				f.probeLog = append(f.probeLog, ProbeRec{Host: host, Start: start, End: time.Now(), OK: false})
 			}
 			f.mu.Unlock()
 			return nil, req.Context().Err()
@@ -243,6 +290,11 @@ func (f *FakeNet) roundTrip(req *http.Request, isProbe bool) (*http.Response, er
 			Header:        http.Header{"Content-Type": {"text/plain"}, "X-Backend": {host}},
 			Body:          io.NopCloser(strings.NewReader(body)),
 			ContentLength: int64(len(body)), Request: req}
+	}
+	if isProbe {
+		f.mu.Lock()
+		f.probeLog = append(f.probeLog, ProbeRec{Host: host, Start: start, End: time.Now(), OK: b == Good || b == Park})
+		f.mu.Unlock()
 	}
 	switch b {
 	case Good, Park:
